@@ -10,9 +10,11 @@
    and none when no range does (file_of_spec, file_of_unique - the LastFile shortcut therefore
    agrees with the search); every table that AddLine builds, from any offsets in any order, is
    sorted and starts with 0, so the hypotheses above hold of every reachable table (add_lines_ok,
-   unpack_correct_reachable).
+   unpack_correct_reachable); the run-time lookup of the source map returns the position
+   recorded at the greatest recorded instruction offset at or below ip, and NoPos only when ip is
+   negative or nothing (or NoPos) is recorded there (source_pos_spec).
    The path from scanner offsets through AST positions, the optimizer's replacement literals,
-   the compiler's source map, the nearest-lower lookup at run time and the trace construction
+   the compiler's source map and the trace construction
    in throw is decided on every run on generated layouts with independently computed expected
    lines, x optimizer x encode/decode x k prepended lines x source modules. *)
 From Coq Require Import List ZArith Bool.
@@ -82,7 +84,18 @@ Theorem C16_unpack_correct_reachable :
 Proof. exact unpack_correct_reachable. Qed.
 Print Assumptions C16_unpack_correct_reachable.
 
+(* the nearest-lower lookup of the source map at run time (CompiledFunction.SourcePos) *)
+Theorem C16_source_pos_spec :
+  forall m ip,
+  (0 <= ip /\ exists k, 0 <= k <= ip /\ sm_get m k = Some (source_pos m ip) /\
+                        forall j, k < j <= ip -> sm_get m j = None) \/
+  (source_pos m ip = 0 /\ forall j, 0 <= j <= ip -> sm_get m j = None).
+Proof. exact source_pos_spec. Qed.
+Print Assumptions C16_source_pos_spec.
+
 Example C16_table :
+  map (source_pos [(0, 5); (3, 9); (7, 12)]) [-1; 0; 2; 3; 6; 7; 100] = [0; 5; 5; 9; 9; 12; 12] /\
+  source_pos [(2, 9)] 1 = 0 /\
   add_lines 40 [16; 31; 31; 7; 33; 40; 39] = [0; 16; 31; 33; 39] /\
   file_of [(1, 10); (12, 0); (13, 5)] 12 = Some 1%nat /\ file_of [(1, 10); (12, 0); (13, 5)] 19 = None /\
   file_of [(1, 10); (12, 0); (13, 5)] 1 = Some 0%nat /\ file_of [(1, 10); (12, 0); (13, 5)] 0 = None /\
